@@ -43,7 +43,7 @@ LEVEL_TEXT = (
 )
 TECHNIQUE = "Lean 4 proof (structure theorems + kernel-decided regenerated preset table) + differential correspondence + implementation-side oracle"
 GEN = ["angular_tables", "presets", "atomgrid"]
-LEAN_MODULES = ["GridVerif.Props.C05", "GridVerif.Props.C05.Gen", "GridVerif.Props.C05.Gen3"]
+LEAN_MODULES = ["GridVerif.Props.C05", "GridVerif.Props.C05.Gen", "GridVerif.Props.C05.Gen3", "GridVerif.Props.C05.Gen6"]
 THEOREMS = [
     "GridVerif.C05.indices_spec",
     "GridVerif.C05.slice_shell",
@@ -93,6 +93,11 @@ THEOREMS = [
     "GridVerif.C05.shell_grid_default_is_slice",
     "GridVerif.C05.shell_grid_gen_rejects",
     "GridVerif.C05.default_arguments",
+    # round 6: clauses that only the generators watched, over the regenerated text
+    "GridVerif.C05.gen_shell_independent",
+    "GridVerif.C05.gen_shell_unaffected_by_other_shells",
+    "GridVerif.C05.gen_get_shell_grid_reads_only",
+    "GridVerif.C05.gen_init_sizes_route",
 ]
 RULE = (
     "correspondence: AtomGrid(...) / from_pruned / from_preset / get_shell_grid / _find_degrees_for_radial_points / "
